@@ -225,7 +225,7 @@ ADDR_VARIANTS = {
 }
 
 
-def run_R1(rep, g, rule='R1'):
+def run_R1(rep, g, rule='R1', scope=None, floor=40):
     rep.rule(rule, 'every section-offset newtype constructed in the read path takes its value from read_offset/read_sized_offset '
              '(or from a parameter/field/another offset), never from a plain integer read; deviations need a reviewed reason')
     n = 0
@@ -233,7 +233,10 @@ def run_R1(rep, g, rule='R1'):
     kc = Counter()
     for p in sorted(g.fns):
         fn = g.fns[p]
-        if not (p.startswith('read::') or p.startswith('<read::')) or fn.kind == 'Closure' and False:
+        if scope is not None:
+            if not scope(p):
+                continue
+        elif not (p.startswith('read::') or p.startswith('<read::')):
             continue
         for bi in sorted(fn.reach):
             stmts, t = fn.blocks[bi]
@@ -281,5 +284,5 @@ def run_R1(rep, g, rule='R1'):
                     rep.bad(rule, key, '%s mixes relocatable and plain reads: %s' % (adt.split('::')[-1], sorted(og)), fn.loc(line))
                 else:
                     rep.ok(rule, key, 'origins %s' % sorted(og), fn.loc(line), why='no plain integer read flows into the offset')
-    rep.floor(rule, 'offset newtype constructions in read::*', n, 40)
+    rep.floor(rule, 'offset newtype constructions in read::*', n, floor)
     return n
